@@ -26,6 +26,17 @@ default — and `<E>` is translated into the expression tree `TExpr` (generated 
 A getter that wraps the row call (try/except, if, a local, a default for unknown ids) is outside the grammar: refusal.
 `self._ssm` must be assigned exactly once in the class, in `__post_init__`, from a call of `nodal_state_space_model`
 imported from `..Network.NodalAnalysis.state_space_model` (generated `transientSsm`).
+
+Method bodies as trees (tie of C09 / C12 to the source; generated `methodTable : List PMethod`): `__post_init__`, `_series`
+and the four getters of TimeDomainSolution / FrequencyDomainSolution and `__post_init__` of TransientSolution are
+translated statement by statement into `PStmt` / `PExpr` (a small Python AST, see PEXPR_LEAN for the grammar):
+  x = E / self.a = E / a, b, c = E ↦ .assign;  E ↦ .expr;  return E ↦ .ret;  `if C: return E` ↦ .ifReturn;  `if C: E` ↦ .ifExpr;
+  `x = {…dict comprehension…}` ↦ .verbatim x "<source text>" (recorded, not translated);
+  names, self.a, e.a, non-negative integers, True/False/None, f(args, k=v) with f a bare or `np.`-dotted name ↦ .call,
+  any other callee ↦ .apply, lists, tuples, one-generator list comprehensions without `if`, one-argument lambdas,
+  + - * / @, unary minus, e[i], slices, `a if c else b`, single comparisons, two-operand `and`.
+Everything else (loops, nested defs, generator expressions, try, with, augmented assignment, decorators, defaults,
+strings, floats, `or`, starred arguments, an extra or missing method in one of the three classes) raises ExtractError.
 """
 from __future__ import annotations
 import ast
@@ -318,6 +329,198 @@ def transient_ssm(tree: ast.Module, cls: ast.ClassDef, rel: str) -> str:
     args = [ast.unparse(x) for x in call.args] + [f'{k.arg}={ast.unparse(k.value)}' for k in call.keywords]
     return f'("{ctor}", "{mods[0][1]}", [' + ', '.join(f'"{x}"' for x in args) + '])'
 
+
+# ---- method bodies as trees (generic small Python AST)
+PEXPR_LEAN = """/-- a Python expression as a tree (translated node by node from the Python AST):
+`name n` = a local / global name; `self a` = `self.a`; `attr e a` = `e.a`; `nat n` = integer literal; `tt`/`ff`/`none_` = `True`/`False`/`None`;
+`call f args` = `f(args)` for a bare or `np.`-dotted callee name `f`; `apply f args` = `f(args)` for any other callee expression;
+argument / element chains: `nil`, `pos e rest` (positional / element), `kw k e rest` (`k=e`);
+`list es` = `[…]`, `tuple es` = `(…)`; `comp elt target iter` = `[elt for target in iter]`; `lam v body` = `lambda v: body`;
+`bin op a b` for op ∈ + - * / @; `neg a` = `-a`; `index e i` = `e[i]`; `slice lo hi step` = `lo:hi:step` (`none_` = absent);
+`ifexp c a b` = `a if c else b`; `cmp op a b` = `a op b` (one comparison); `and_ a b` = `a and b` -/
+inductive PExpr where
+  | name (n : String)
+  | self (a : String)
+  | attr (e : PExpr) (a : String)
+  | nat (n : Nat)
+  | tt
+  | ff
+  | none_
+  | call (f : String) (args : PExpr)
+  | apply (f : PExpr) (args : PExpr)
+  | nil
+  | pos (e rest : PExpr)
+  | kw (k : String) (e rest : PExpr)
+  | list (elts : PExpr)
+  | tuple (elts : PExpr)
+  | comp (elt target iter : PExpr)
+  | lam (v : String) (body : PExpr)
+  | bin (op : String) (a b : PExpr)
+  | neg (a : PExpr)
+  | index (e i : PExpr)
+  | slice (lo hi step : PExpr)
+  | ifexp (c a b : PExpr)
+  | cmp (op : String) (a b : PExpr)
+  | and_ (a b : PExpr)
+deriving DecidableEq, Repr
+
+/-- a statement of a method body: `assign t v` = `t = v` (`t` a name, `self.a` or a tuple of these); `expr e` = the expression
+statement `e`; `ret e` = `return e`; `ifReturn c e` = `if c: return e`; `ifExpr c e` = `if c: e`;
+`verbatim x text` = `x = <dict comprehension>` recorded as source text -/
+inductive PStmt where
+  | assign (target value : PExpr)
+  | expr (e : PExpr)
+  | ret (e : PExpr)
+  | ifReturn (c e : PExpr)
+  | ifExpr (c e : PExpr)
+  | verbatim (target text : String)
+deriving DecidableEq, Repr
+
+/-- `def name(self, params…): body` of class `cls` -/
+structure PMethod where
+  cls : String
+  name : String
+  params : List String
+  body : List PStmt
+deriving DecidableEq, Repr
+"""
+
+P_BIN = {ast.Add: '+', ast.Sub: '-', ast.Mult: '*', ast.Div: '/', ast.MatMult: '@'}
+P_CMP = {ast.Eq: '==', ast.NotEq: '!=', ast.Lt: '<', ast.LtE: '<=', ast.Gt: '>', ast.GtE: '>=', ast.In: 'in', ast.NotIn: 'not in'}
+
+def lstr(s: str) -> str:
+    return '"' + s.replace('\\', '\\\\').replace('"', '\\"').replace('\n', '\\n') + '"'
+
+def pchain(items, rel) -> str:
+    """argument / element chain; items: list of (keyword or None, ast expr)"""
+    out = '.nil'
+    for k, e in reversed(items):
+        out = f'(.pos {pexpr(e, rel)} {out})' if k is None else f'(.kw {lstr(k)} {pexpr(e, rel)} {out})'
+    return out
+
+def pexpr(e, rel) -> str:
+    """Python expression ↦ `PExpr` term; refuses outside the grammar"""
+    if isinstance(e, ast.Name):
+        return f'(.name {lstr(e.id)})'
+    if isinstance(e, ast.Constant):
+        if e.value is True: return '.tt'
+        if e.value is False: return '.ff'
+        if e.value is None: return '.none_'
+        if isinstance(e.value, int) and e.value >= 0: return f'(.nat {e.value})'
+        refuse(rel, e, f'constant outside the grammar: {ast.unparse(e)}')
+    if isinstance(e, ast.Attribute):
+        if isinstance(e.value, ast.Name) and e.value.id == 'self':
+            return f'(.self {lstr(e.attr)})'
+        if isinstance(e.value, ast.Name) and e.value.id == 'np':
+            refuse(rel, e, f'numpy attribute outside a call: {ast.unparse(e)}')
+        return f'(.attr {pexpr(e.value, rel)} {lstr(e.attr)})'
+    if isinstance(e, ast.Call):
+        if any(isinstance(a, ast.Starred) for a in e.args) or any(k.arg is None for k in e.keywords):
+            refuse(rel, e, 'starred arguments')
+        args = pchain([(None, a) for a in e.args] + [(k.arg, k.value) for k in e.keywords], rel)
+        f = e.func
+        if isinstance(f, ast.Name):
+            return f'(.call {lstr(f.id)} {args})'
+        if isinstance(f, ast.Attribute) and isinstance(f.value, ast.Name) and f.value.id == 'np':
+            return f'(.call {lstr("np." + f.attr)} {args})'
+        return f'(.apply {pexpr(f, rel)} {args})'
+    if isinstance(e, ast.List):
+        return f'(.list {pchain([(None, x) for x in e.elts], rel)})'
+    if isinstance(e, ast.Tuple):
+        return f'(.tuple {pchain([(None, x) for x in e.elts], rel)})'
+    if isinstance(e, ast.ListComp):
+        if len(e.generators) != 1 or e.generators[0].ifs or e.generators[0].is_async:
+            refuse(rel, e, 'comprehension outside the grammar (one `for`, no `if`)')
+        g = e.generators[0]
+        def target(t):
+            if isinstance(t, ast.Name): return f'(.name {lstr(t.id)})'
+            if isinstance(t, ast.Tuple): return '(.tuple ' + pchain_t(t.elts) + ')'
+            refuse(rel, t, 'comprehension target outside the grammar')
+        def pchain_t(ts):
+            out = '.nil'
+            for t in reversed(ts): out = f'(.pos {target(t)} {out})'
+            return out
+        return f'(.comp {pexpr(e.elt, rel)} {target(g.target)} {pexpr(g.iter, rel)})'
+    if isinstance(e, ast.Lambda):
+        a = e.args
+        if a.posonlyargs or a.vararg or a.kwonlyargs or a.kwarg or a.defaults or a.kw_defaults or len(a.args) != 1:
+            refuse(rel, e, 'lambda outside the grammar (one plain argument)')
+        return f'(.lam {lstr(a.args[0].arg)} {pexpr(e.body, rel)})'
+    if isinstance(e, ast.BinOp) and type(e.op) in P_BIN:
+        return f'(.bin {lstr(P_BIN[type(e.op)])} {pexpr(e.left, rel)} {pexpr(e.right, rel)})'
+    if isinstance(e, ast.UnaryOp) and isinstance(e.op, ast.USub):
+        return f'(.neg {pexpr(e.operand, rel)})'
+    if isinstance(e, ast.Subscript):
+        return f'(.index {pexpr(e.value, rel)} {pexpr(e.slice, rel)})'
+    if isinstance(e, ast.Slice):
+        opt = lambda x: '.none_' if x is None else pexpr(x, rel)
+        return f'(.slice {opt(e.lower)} {opt(e.upper)} {opt(e.step)})'
+    if isinstance(e, ast.IfExp):
+        return f'(.ifexp {pexpr(e.test, rel)} {pexpr(e.body, rel)} {pexpr(e.orelse, rel)})'
+    if isinstance(e, ast.Compare) and len(e.ops) == 1 and type(e.ops[0]) in P_CMP:
+        return f'(.cmp {lstr(P_CMP[type(e.ops[0])])} {pexpr(e.left, rel)} {pexpr(e.comparators[0], rel)})'
+    if isinstance(e, ast.BoolOp) and isinstance(e.op, ast.And) and len(e.values) == 2:
+        return f'(.and_ {pexpr(e.values[0], rel)} {pexpr(e.values[1], rel)})'
+    refuse(rel, e, f'expression outside the grammar of method trees: {ast.unparse(e)}')
+
+def ptarget(t, rel) -> str:
+    if isinstance(t, ast.Name): return f'(.name {lstr(t.id)})'
+    if isinstance(t, ast.Attribute) and isinstance(t.value, ast.Name) and t.value.id == 'self': return f'(.self {lstr(t.attr)})'
+    if isinstance(t, ast.Tuple):
+        out = '.nil'
+        for x in reversed(t.elts): out = f'(.pos {ptarget(x, rel)} {out})'
+        return f'(.tuple {out})'
+    refuse(rel, t, f'assignment target outside the grammar: {ast.unparse(t)}')
+
+def pstmt(st, rel) -> str:
+    if isinstance(st, ast.Assign) and len(st.targets) == 1:
+        if isinstance(st.targets[0], ast.Name) and isinstance(st.value, ast.DictComp):
+            return f'.verbatim {lstr(st.targets[0].id)} {lstr(ast.unparse(st.value))}'
+        return f'.assign {ptarget(st.targets[0], rel)} {pexpr(st.value, rel)}'
+    if isinstance(st, ast.Expr) and not isinstance(st.value, ast.Constant):
+        return f'.expr {pexpr(st.value, rel)}'
+    if isinstance(st, ast.Return) and st.value is not None:
+        return f'.ret {pexpr(st.value, rel)}'
+    if isinstance(st, ast.If) and not st.orelse and len(st.body) == 1:
+        b = st.body[0]
+        if isinstance(b, ast.Return) and b.value is not None:
+            return f'.ifReturn {pexpr(st.test, rel)} {pexpr(b.value, rel)}'
+        if isinstance(b, ast.Expr) and not isinstance(b.value, ast.Constant):
+            return f'.ifExpr {pexpr(st.test, rel)} {pexpr(b.value, rel)}'
+    refuse(rel, st, f'statement outside the grammar of method trees: {ast.unparse(st).splitlines()[0]}')
+
+TREE_METHODS = {
+    'TimeDomainSolution': (['__post_init__', 'get_voltage', 'get_current', 'get_potential', 'get_power'], []),
+    'FrequencyDomainSolution': (['__post_init__', '_series', 'get_voltage', 'get_current', 'get_potential', 'get_power'], []),
+    # of TransientSolution only __post_init__ becomes a tree (the getters are `transientTable`); `t` is the property returning `self._tout`
+    'TransientSolution': (['__post_init__'], ['t', 'get_potential', 'get_voltage', 'get_current', 'get_power']),
+}
+
+def method_trees(cs: dict, rel: str) -> list[str]:
+    rows = []
+    for cname, (wanted, others) in TREE_METHODS.items():
+        cls = cs[cname]
+        defs = [st for st in cls.body if isinstance(st, (ast.FunctionDef, ast.AsyncFunctionDef, ast.ClassDef))]
+        names = [d.name for d in defs]
+        if sorted(names) != sorted(wanted + others):
+            refuse(rel, cls, f'{cname}: the methods are not exactly {sorted(wanted + others)} (found {sorted(names)})')
+        for st in cls.body:
+            if not isinstance(st, (ast.FunctionDef, ast.AnnAssign, ast.Expr)) or \
+                    (isinstance(st, ast.Expr) and not isinstance(st.value, ast.Constant)):
+                refuse(rel, st, f'{cname}: class-level statement outside the grammar')
+        ms = methods(cls)
+        for name in wanted:
+            fn = ms[name]
+            a = fn.args
+            if fn.decorator_list or a.posonlyargs or a.vararg or a.kwonlyargs or a.kwarg or a.defaults or a.kw_defaults \
+                    or not a.args or a.args[0].arg != 'self':
+                refuse(rel, fn, f'{cname}.{name} is not a plain `def {name}(self, …)`')
+            body = [st for st in fn.body if not (isinstance(st, ast.Expr) and isinstance(st.value, ast.Constant))]
+            params = ', '.join(lstr(x.arg) for x in a.args[1:])
+            stmts = ',\n      '.join(pstmt(st, rel) for st in body)
+            rows.append(f'{{ cls := {lstr(cname)}, name := {lstr(name)}, params := [{params}],\n    body := [\n      {stmts}] }}')
+    return rows
+
 SERIES_BODY = '''if self.one_sided:
     return (np.array(self.w), values)
 ac = slice(1, None) if len(self.w) > 0 and self.w[0] == 0 else slice(0, None)
@@ -452,5 +655,10 @@ def gen_solution(src) -> str:
     out.append('\ndef transientTable : List TransientRow := [\n  ' + ',\n  '.join(rows) + ']\n')
     out.append('\n/-- `self._ssm = <constructor>(<arguments>)` in `__post_init__`: (constructor, module it is imported from, arguments) -/\n')
     out.append(f'def transientSsm : String × String × List String :=\n  {transient_ssm(tree, tcls, rel)}\n')
+    # ---- method bodies as trees (fresh parse: `lambda_body` above rewrites the tree it translates)
+    out.append('\n/-! ### method bodies as trees: `__post_init__`, `_series` and the getters of TimeDomainSolution / FrequencyDomainSolution,\n'
+               '`__post_init__` of TransientSolution (reading: CC/Model/SolutionEval.lean) -/\n\n')
+    out.append(PEXPR_LEAN)
+    out.append('\ndef methodTable : List PMethod := [\n  ' + ',\n  '.join(method_trees(classes(parse(src, rel)), rel)) + ']\n')
     out.append('\nend\nend CC.Gen.Sol\n')
     return ''.join(out)
